@@ -446,3 +446,46 @@ def reformatString (f : QFlags) (src : Bytes) : Bytes × Nat × Err :=
       ((appendQuote f b).1, n, .ok)
 
 end JsonV.Model.Quote
+
+/-! ### AppendQuote with the copy-span bookkeeping of the Go code (`i`, `n`)
+
+`appendQuote` above emits every character when it is consumed.  The Go loop instead keeps a pending span
+`src[i:n]` and flushes it (`dst = append(dst, src[i:n-…]...)`) only in front of an escape and at the end.
+`quoteIdxLoop` is that loop written literally with the indices; `Props/C11.quote_copy_span` proves both equal. -/
+
+namespace JsonV.Model.Quote
+open JsonV JsonV.Model.Utf8
+
+/-- `src[i:n]` -/
+def slice (src : Bytes) (i n : Nat) : Bytes := (src.drop i).take (n - i)
+
+/-- The `for uint(len(src)) > uint(n)` loop of AppendQuote with its variables `i`, `n`, `dst`, `hasInvalidUTF8`.
+Fuel: every iteration advances `n`, so `len(src) - n` iterations suffice (the equality theorem shows it does). -/
+def quoteIdxLoop (html js : Bool) (src : Bytes) : Nat → Nat → Nat → Bytes → Bool → Bytes × Bool
+  | 0, i, n, dst, inv => (dst ++ slice src i n, inv)
+  | fuel + 1, i, n, dst, inv =>
+    match src.drop n with
+    | [] => (dst ++ slice src i n, inv)                      -- loop exit, `dst = append(dst, src[i:n]...)`
+    | c :: t =>
+      if c.toNat < runeSelf then
+        let n := n + 1
+        if escapeASCII c.toNat = 0 then quoteIdxLoop html js src fuel i n dst inv
+        else if !(isHTMLChar c.toNat) || html then
+          quoteIdxLoop html js src fuel n n (dst ++ slice src i (n - 1) ++ appendEscapedASCII c.toNat) inv
+        else quoteIdxLoop html js src fuel i n dst inv
+      else
+        let d := decodeRune (c :: t)
+        let n := n + d.2
+        if d.1 ≠ runeError ∧ d.1 ≠ 0x2028 ∧ d.1 ≠ 0x2029 then quoteIdxLoop html js src fuel i n dst inv
+        else if isInvalidUTF8 d.1 d.2 then
+          quoteIdxLoop html js src fuel n n (dst ++ slice src i (n - d.2) ++ utf8FFFD) true
+        else if (d.1 = 0x2028 ∨ d.1 = 0x2029) ∧ js then
+          quoteIdxLoop html js src fuel n n (dst ++ slice src i (n - d.2) ++ appendEscapedUnicode d.1) inv
+        else quoteIdxLoop html js src fuel i n dst inv
+
+/-- `AppendQuote(nil, src, flags)` written with the index bookkeeping. -/
+def appendQuoteIdx (f : QFlags) (src : Bytes) : Bytes × Err :=
+  let r := quoteIdxLoop f.html f.js src src.length 0 0 [0x22] false
+  (r.1 ++ [0x22], if r.2 && !f.allowInvalid then Err.invalidUTF8 else Err.ok)
+
+end JsonV.Model.Quote
